@@ -267,11 +267,16 @@ func TestVerifC16b(t *testing.T) {
 
 type c17bCase struct {
 	Values [][]byte `json:"values"`
+	Burst  bool     `json:"burst,omitempty"` // publish all values at once, so that the partition takes them as one batch
 }
 
 func genC17b(t *rapid.T) c17bCase {
 	var c c17bCase
+	c.Burst = rapid.Bool().Draw(t, "burst")
 	n := rapid.IntRange(1, 8).Draw(t, "n")
+	if c.Burst {
+		n = rapid.IntRange(4, 24).Draw(t, "nburst")
+	}
 	for i := 0; i < n; i++ {
 		v := rapid.OneOf(
 			rapid.Just([]byte{}),
@@ -312,12 +317,33 @@ func runC17b(c c17bCase, o *vfutil.Obs) *vfutil.Failure {
 	if err := waitLeader(l.s, name); err != nil {
 		return vfutil.Failf("harness/leader", "%v", err)
 	}
-	for i, v := range c.Values {
-		ctx, cancel := ctxFor("", 20*time.Second)
-		_, err := a.Publish(ctx, &client.PublishRequest{Stream: name, Value: v, AckPolicy: client.AckPolicy_ALL})
-		cancel()
-		if err != nil {
-			return vfutil.Failf("C17/publish-error", "value %d (%d bytes): %v", i, len(v), err)
+	if c.Burst {
+		var wg sync.WaitGroup
+		errs := make([]error, len(c.Values))
+		for i, v := range c.Values {
+			wg.Add(1)
+			go func(i int, v []byte) {
+				defer wg.Done()
+				ctx, cancel := ctxFor("", 20*time.Second)
+				_, errs[i] = a.Publish(ctx, &client.PublishRequest{Stream: name, Value: v, AckPolicy: client.AckPolicy_ALL})
+				cancel()
+			}(i, v)
+		}
+		wg.Wait()
+		for i, err := range errs {
+			if err != nil {
+				return vfutil.Failf("C17/publish-error", "value %d (%d bytes): %v", i, len(c.Values[i]), err)
+			}
+		}
+		o.Label("burst")
+	} else {
+		for i, v := range c.Values {
+			ctx, cancel := ctxFor("", 20*time.Second)
+			_, err := a.Publish(ctx, &client.PublishRequest{Stream: name, Value: v, AckPolicy: client.AckPolicy_ALL})
+			cancel()
+			if err != nil {
+				return vfutil.Failf("C17/publish-error", "value %d (%d bytes): %v", i, len(v), err)
+			}
 		}
 	}
 	// what is on disk
@@ -354,10 +380,20 @@ func runC17b(c c17bCase, o *vfutil.Obs) *vfutil.Failure {
 		return vfutil.Failf("C17/subscribe-error", "%v", err)
 	}
 	defer sub.Close()
+	pending := map[string]int{}
+	for _, v := range c.Values {
+		pending[string(v)]++
+	}
 	for i, v := range c.Values {
 		select {
 		case m := <-sub.Messages():
-			if !bytes.Equal(m.Value, v) {
+			if c.Burst {
+				// arrival order of a burst is not defined: compare as a multiset
+				if pending[string(m.Value)] == 0 {
+					return vfutil.Failf("C17/subscriber-got-other-value", "message %d: subscriber received %d bytes %q, which was not published (or more often than published)", i, len(m.Value), clipB(m.Value))
+				}
+				pending[string(m.Value)]--
+			} else if !bytes.Equal(m.Value, v) {
 				return vfutil.Failf("C17/subscriber-got-other-value", "message %d: subscriber received %d bytes %q, published %d bytes %q", i, len(m.Value), clipB(m.Value), len(v), clipB(v))
 			}
 		case st := <-sub.Errors():
